@@ -30,7 +30,7 @@ ASSUMPTIONS = [
     "two functional models per case",
 ]
 BUDGET = {
-    "quick": dict(examples=150, shards=16, seconds=200),
+    "quick": dict(examples=500, shards=16, seconds=200),
     "thorough": dict(examples=3000, shards=16, seconds=2400),
 }
 ESSENTIAL_LABELS = {t: ["answered", "line6", "line9", "worlds>=2", "merged-or-relabelled"] for t in ("quick", "thorough")}
